@@ -25,6 +25,9 @@ def registry():
     for pid, ent in reg.items():
         # "the state the code keeps is the state the Model has": Props/<ID>State.lean over Generated/Footprint.lean
         ent["lean"] = list(ent["lean"]) + [f"TinyFlux.Props.{pid}State"]
+        if os.path.exists(os.path.join(C.VERIF, "lean", "TinyFlux", "Props", f"{pid}Witness.lean")):
+            # non-vacuity: the hypotheses of the property's theorems hold of concrete, non-trivial states
+            ent["lean"].append(f"TinyFlux.Props.{pid}Witness")
         ent["gen"] = tuple(ent.get("gen", ())) + ("Footprint", "CallGraph")
     return reg
 
